@@ -158,6 +158,32 @@ theorem civil_valid (z : Nat) :
   rw [civilFromDays_eq]
   exact ⟨m1, m12, d1, d31⟩
 
+/-- the day of month never exceeds the length of its month (leap rule included) -/
+theorem civil_day_in_month (z : Nat) :
+    (civilFromDays z).2.2 ≤ daysInMonth (civilFromDays z).1 (civilFromDays z).2.1 := by
+  obtain ⟨era, y, doy, hy, hd, hz⟩ := civil_nf z
+  rw [civil_of_nf z era y doy hy hd hz]
+  have hlen : eraLen y = 365 ∨ eraLen y = 366 := by unfold eraLen; split <;> simp
+  obtain ⟨m1, m12, _, _, _⟩ := mdOfDoy_spec doy (by omega)
+  have hdim := daysInMonth_civ y era (mdOfDoy doy).1 m1 m12
+  have hle := mdOf_le_dim doy (eraLen y) _ hlen hd rfl
+  rw [← mdOfDoy_eq] at hle
+  unfold civOf
+  simp only []
+  rw [hdim]
+  exact hle
+
+/-- day 0 is 1 January 1970 … -/
+theorem civil_epoch : civilFromDays 0 = (1970, 1, 1) := by decide
+
+/-- … and every following day is the Gregorian successor of the day before
+(`nextDay`: next day of the month, else first of the next month, else 1 January of the next
+year; February has 29 days iff the year is divisible by 4 and not by 100, or by 400).
+Together with `civil_epoch` this determines `civilFromDays` completely: it IS the
+proleptic Gregorian calendar, for all days. -/
+theorem civil_succ (z : Nat) : civilFromDays (z + 1) = nextDay (civilFromDays z) :=
+  civil_succ_lemma z
+
 /-- different days have different civil dates -/
 theorem civil_injective {a b : Nat} (h : civilFromDays a = civilFromDays b) : a = b := by
   have ha := civil_roundtrip a
@@ -197,5 +223,8 @@ example : (destinedTo (fun s : Nat => s) 2 [[(0, [1]), (1, [2])], [(1, [3]), (0,
 example : civilFromDays 0 = (1970, 1, 1) ∧ civilFromDays 11016 = (2000, 2, 29) ∧
     civilFromDays 11017 = (2000, 3, 1) ∧ civilFromDays 47540 = (2100, 2, 28) ∧
     civilFromDays 47541 = (2100, 3, 1) ∧ civilFromDays 364 = (1970, 12, 31) ∧ civilFromDays 365 = (1971, 1, 1) := by decide
+/-- the successor rule at a leap day, a century non-leap year and a year end -/
+example : nextDay (2000, 2, 28) = (2000, 2, 29) ∧ nextDay (2100, 2, 28) = (2100, 3, 1) ∧
+    nextDay (1999, 12, 31) = (2000, 1, 1) ∧ nextDay (2024, 4, 30) = (2024, 5, 1) := by decide
 
 end YgmVerif.Out
